@@ -27,7 +27,7 @@ def run(tier, seed, t0):
             ("resolvew", [], "TraceBrowse", "TraceBrowse.cfg", 40, 800),
             ("conflict", [], "TraceRespond", "TraceRespond.cfg", 60, 800)]
     return daemon.run_group(PROP, tier, seed, t0, fams, "TraceBrowse", "TraceBrowse.cfg", PREFIXES,
-                            [("MCSchedule", "MCSchedule.cfg")], ["C19.schedule", "C07.twice", "C09.repeat", "C11.refresh"], ASSUME, RULE)
+                            [("MCSchedule", "MCSchedule.cfg")], ["C19.schedule", "C07.twice", "C09.repeat", "C11.refresh", "C12.loop-wake", "C12.loop-cover"], ASSUME, RULE)
 
 
 def replay(path, seed):
